@@ -28,15 +28,15 @@ def datetime_isostring(date, keep_microseconds=False):
     date -- date object
     keep_microseconds -- include microseconds in iso
     """
-    utc_offset_sec = time.altzone if time.localtime().tm_isdst == 1 else time.timezone
-    utc_offset = datetime.timedelta(seconds=-utc_offset_sec)
-
     if keep_microseconds:
         date_to_format = date
     else:
         date_to_format = date.replace(microsecond=0)
 
-    return date_to_format.replace(tzinfo=datetime.timezone(offset=utc_offset)).isoformat()
+    # naive dates are local times: astimezone() attaches the UTC offset that is in force in the local time zone
+    # at that instant (not the one in force now, which differs across a daylight saving switch) and converts
+    # dates that already carry an offset without changing the instant they denote
+    return date_to_format.astimezone().isoformat()
 
 
 def datetime_now_isostring():
